@@ -5,7 +5,7 @@
    Re-proved against what cirbo/sat/cnf/tseytin.py says now. *)
 Require Import Cirbo.Model.Base Cirbo.Model.Gate Cirbo.Model.Den Cirbo.Model.Cnf.
 Require Import Cirbo.Generated.Tseytin.
-Open Scope Z_scope.
+Local Open Scope Z_scope.
 
 (* ---------- literals, clauses ------------------------------------------------------ *)
 Lemma lval_opp s l : l <> 0 -> lval s (- l) = negb (lval s l).
